@@ -1,7 +1,7 @@
 """C46 - SuperSpeed IN stream endpoint: data / NRDY / ERDY, sequence numbers, retries, exactly-once delivery.
 
 DUT: luna.gateware.usb.usb3.endpoints.stream.SuperSpeedStreamInEndpoint(endpoint_number 1..15, max_packet_size in
-{16, 64, 1024}), stand-alone, driven at its input `stream` and at its SuperSpeedEndpointInterface (`handshakes_in`,
+{16, 64, 1024, rarely 32 / 128 / 512; 1024 also through the constructor default}), stand-alone, driven at its input `stream` and at its SuperSpeedEndpointInterface (`handshakes_in`,
 `handshakes_out.ready/done`, `tx.ready`, `ep_reset`), observed at `tx`, `tx_zlp`, `tx_length`, `tx_sequence_number`,
 `tx_endpoint_number`, `handshakes_out.send_*` / `endpoint_number` and `stream.ready`.
 
@@ -55,8 +55,10 @@ acknowledgement, `stream_ended` flag not cleared on buffer swap, sequence number
 mid-session reset points were added), send position not reset, tx.ready ignored mid-packet, fill count not cleared on
 acknowledgement, ZLP dropped, data sent on a pure acknowledgement, 3-byte final word counted as 4, stale `last_packet_was_zlp`.
 
-Not judged: `first` on tx, tx_direction, bursts (the host never asks for more than one packet: NumP is 0 or 1, as for an
-endpoint without burst capability), Rty=1 with NumP=0, ACK TPs to the endpoint that no host would send (acknowledging nothing),
+Not judged: `first` on tx, tx_direction, bursts (IN requests carry NumP 1, sometimes 2..16: one packet is owed, further
+unsolicited packets after such a request end the session unjudged), ACK TPs whose sequence number is neither the expected
+one nor the one of the packet just sent (no host sends them; the statement does not say what they mean), ep_reset while data
+is buffered (the statement does not mention reset; only the restart of the numbering at a quiet point is judged), Rty=1 with NumP=0, ACK TPs to the endpoint that no host would send (acknowledging nothing),
 input words with partial `valid` that are not the last of a transfer, behaviour of buffered data across `ep_reset` (resets
 are only issued when nothing is buffered).
 """
@@ -69,7 +71,7 @@ RULE = ("case = 2-4 sessions on fresh endpoints (max packet 16/64/1024, endpoint
         "last/first word), handshake-generator latency 1-10, host schedule (IN request / ack+request / pure ack / retry / repeated seq / "
         "request placed at packet completion, foreign TPs every idle cycle, ep_reset at quiet points), profile hostile|saturated; "
         "non-trivial = >=3 data packets delivered and >=1 retry or NRDY; distinct = hash of scripts and schedules")
-REQUIRED_BINS = ["mps_16", "mps_64", "mps_1024", "profile_hostile", "profile_saturated", "in_request_with_data", "in_request_without_data",
+REQUIRED_BINS = ["mps_16", "mps_64", "mps_1024", "mps_other", "mps_default_argument", "in_request_nump_gt_1", "profile_hostile", "profile_saturated", "in_request_with_data", "in_request_without_data",
                  "in_request_at_completion", "ack_and_request", "pure_ack", "retry_rty", "retry_repeated_seq", "retry_of_zlp",
                  "nrdy_then_erdy", "short_packet_end", "zlp_end", "full_packet", "partial_last_word_1", "partial_last_word_2",
                  "partial_last_word_3", "tx_stall_mid_packet", "tx_stall_on_last_word", "tx_stall_on_first_word", "foreign_tp_while_waiting_for_ack",
@@ -104,35 +106,37 @@ class Session:
     # ------------------------------------------------------------------ configuration
     def configure(self):
         rng = self.rng
-        self.mps = rng.choice([16, 16, 16, 64, 64, 64, 1024])
+        self.mps = rng.choice([16, 16, 16, 64, 64, 64, 1024, 1024, 32, 32, 128, 128, 512, 16, 64])
+        self.default_mps = self.mps == 1024 and rng.random() < 0.5     # constructor default instead of the explicit argument
+        self.p_burst_nump = rng.choice([0.0, 0.1, 0.3])                # IN requests with NumP 2..16 (still one packet is owed)
         self.ep = rng.randint(1, 15)
         self.clean = rng.random() < 0.4
         mps = self.mps
-        n_transfers = rng.randint(2, 6) if mps < 1024 else rng.randint(1, 2)
+        n_transfers = rng.randint(2, 6) if mps < 512 else rng.randint(1, 2)
         lengths = []
         for _ in range(n_transfers):
             k = rng.random()
             if self.clean:
                 tail = rng.randint(5, mps - 1)
-                full = rng.choice([0, 0, 1, 1, 2, 3]) if mps < 1024 else rng.choice([0, 1])
+                full = rng.choice([0, 0, 1, 1, 2, 3]) if mps < 512 else rng.choice([0, 1])
                 lengths.append(full * mps + tail)
             elif k < 0.15:
                 lengths.append(rng.randint(1, 4))
             elif k < 0.25:
                 lengths.append(rng.randint(5, 8))
             elif k < 0.45:
-                lengths.append(rng.choice([1, 1, 2, 3]) * mps if mps < 1024 else mps)
+                lengths.append(rng.choice([1, 1, 2, 3]) * mps if mps < 512 else mps)
             elif k < 0.60:
                 lengths.append(rng.choice([mps - 1, mps - 3, mps - 4, mps + 1, mps + 4, mps + 5, 2 * mps - 1, 2 * mps + 2]))
             elif k < 0.70:
                 lengths.append(rng.choice([1, 2]) * mps + rng.randint(1, 4))
             else:
-                lengths.append(rng.randint(1, 3 * mps if mps < 1024 else mps + 40))
+                lengths.append(rng.randint(1, 3 * mps if mps < 512 else mps + 40))
         self.lengths = lengths
         self.endless_words = 0
         if rng.random() < 0.25:
             # endless tail: full words without `last` (continuous max-size packets, the rest stays in the buffer)
-            self.endless_words = (mps // 4) * rng.randint(1, 3 if mps < 1024 else 1) + rng.choice([0, 0, 1, 3])
+            self.endless_words = (mps // 4) * rng.randint(1, 3 if mps < 512 else 1) + rng.choice([0, 0, 1, 3])
         self.gap_profile = "dense" if self.clean else rng.choice(["dense", "random", "random", "bursts", "slow"])
         self.gap_p = rng.choice([0.2, 0.5, 0.8])
         self.start_delay = rng.choice([0, 0, 3, 20, 60])
@@ -177,7 +181,11 @@ class Session:
         rng, res = self.rng, self.res
         self.configure()
         mps = self.mps
-        dut = SuperSpeedStreamInEndpoint(endpoint_number=self.ep, max_packet_size=mps)
+        if self.default_mps:
+            dut = SuperSpeedStreamInEndpoint(endpoint_number=self.ep)      # documented default: 1024
+            res.bin("mps_default_argument")
+        else:
+            dut = SuperSpeedStreamInEndpoint(endpoint_number=self.ep, max_packet_size=mps)
         itf = dut.interface
         total_words = sum((n + 3) // 4 for n in self.lengths) + self.endless_words
         budget = 4000 + total_words * 40 + len(self.lengths) * 600
@@ -187,7 +195,7 @@ class Session:
                 itf.tx_sequence_number, itf.tx_endpoint_number, hout.send_ack, hout.send_stall, hout.send_nrdy, hout.send_erdy,
                 hout.endpoint_number, hout.ready, hout.done]
         b.watch(*sigs)
-        res.bin("mps_%d" % mps)
+        res.bin("mps_%d" % mps if mps in (16, 64, 1024) else "mps_other")
         res.bin("profile_saturated" if self.clean else "profile_hostile")
         res.event("sessions")
 
@@ -457,6 +465,15 @@ class Session:
     def tp(self, ep, seq, nump, rty, foreign=False):
         """drive one ACK TP for the coming cycle; returns the cycle index at which the endpoint samples it"""
         b = self.b
+        if not foreign:
+            H = self.host_state
+            H["burst_ok"] = False
+            if nump == 1 and self.p_burst_nump and self.rng.random() < self.p_burst_nump:
+                # the host has room for more than one packet: still an IN request; exactly one packet is owed, an endpoint that
+                # bursts may send more (not judged)
+                nump = self.rng.choice([2, 2, 3, 4, 8, 16])
+                H["burst_ok"] = True
+                self.res.bin("in_request_nump_gt_1")
         hin = self.dut_itf.handshakes_in
         b.set(hin.ack_received, 1); b.set(hin.endpoint_number, ep); b.set(hin.next_sequence, seq & 31)
         b.set(hin.number_of_packets, nump); b.set(hin.retry_required, rty)
@@ -799,6 +816,9 @@ class Session:
             dp = e[1]
             if dp["zlp"] and H["zlp_flag"]:
                 self.zlp_repeated(dp)
+            if H.get("burst_ok"):
+                self.res.unjudged += 1      # the last request offered room for more than one packet
+                raise GiveUp()
             if not H["in_sync"]:
                 self.res.unjudged += 1      # the endpoint takes the acknowledgement for a retry: consequence of an already reported loss of sync
                 raise GiveUp()
